@@ -116,24 +116,31 @@ def hill_climb_mesh_extreme(
     """
     search_direction = np.ascontiguousarray(search_direction)
     best_idx = start_idx
+    # We compare the projections of the vertices, not the projection of their
+    # difference: each vertex has one fixed projection, so the sequence of
+    # accepted projections is strictly increasing and the search terminates.
+    # Differences of vertices with (almost) equal projections are rounding
+    # noise of either sign and can lead around a face of the mesh forever.
+    best_projection = search_direction.dot(
+        np.ascontiguousarray(vertices[best_idx]))
 
     if shortcut_connections is not None:
         for connected_idx in shortcut_connections:
-            vertex_diff = np.ascontiguousarray(
-                vertices[connected_idx] - vertices[best_idx])
-            projected_length = search_direction.dot(vertex_diff)
-            if projected_length > PROJECTION_LENGTH_EPSILON:
+            projection = search_direction.dot(
+                np.ascontiguousarray(vertices[connected_idx]))
+            if projection - best_projection > PROJECTION_LENGTH_EPSILON:
                 best_idx = connected_idx
+                best_projection = projection
 
     converged = False
     while not converged:
         converged = True
         for connected_idx in connections[best_idx]:
-            vertex_diff = np.ascontiguousarray(
-                vertices[connected_idx] - vertices[best_idx])
-            projected_length = search_direction.dot(vertex_diff)
-            if projected_length > PROJECTION_LENGTH_EPSILON:
+            projection = search_direction.dot(
+                np.ascontiguousarray(vertices[connected_idx]))
+            if projection - best_projection > PROJECTION_LENGTH_EPSILON:
                 best_idx = connected_idx
+                best_projection = projection
                 converged = False
 
     return best_idx
